@@ -1753,3 +1753,78 @@ type Ctl struct {
 	symxCover("C18.front.values.checked")
 	symxAssert(found, "C18.front.value-diagnostic-covers-text-equal-to-the-value")
 }
+
+// C14 through the front end, unsupported and unusual type shapes: every one ends with an accepted project or a
+// reported error, never a crash
+func vh_C14_front_types_Q() {
+	symxAssertionsOff()
+	types := []string{"func()", "func(int)", "func(int) string", "chan int", "interface{}", "any", "struct{ N int }", "[]func()",
+		"map[int]string", "*[]string", "Box[Leaf]", "Box[int]", "Pair[string, Leaf]", "[]Box[Leaf]", "error", "uintptr", "complex128", "[]any"}
+	t := types[symxChoice("type", len(types))]
+	tag := []string{"", " `json:\"-\"`"}[symxChoice("hidden", 2)]
+	where := symxChoice("where", 3) // a model field, a query parameter, the returned value
+	field, param, ann, ret := "F string", "", "", "Leaf"
+	switch where {
+	case 0:
+		field = "F " + t + tag
+	case 1:
+		param, ann = "q "+t, "// @Query(q)\n"
+	default:
+		ret = t
+	}
+	src := `package ctl
+
+import "github.com/gopher-fleece/runtime"
+
+type Leaf struct {
+	V int
+}
+
+type Box[T any] struct {
+	Item T
+}
+
+type Pair[A any, B any] struct {
+	First  A
+	Second B
+}
+
+type Inner struct {
+	` + field + `
+}
+
+// @Route(/c)
+type Ctl struct {
+	runtime.GleeceController
+}
+
+// @Method(POST)
+// @Route(/op)
+// @Body(b)
+` + ann + `func (c *Ctl) Op(b Inner` + func() string {
+		if param != "" {
+			return ", " + param
+		}
+		return ""
+	}() + `) (` + ret + `, error) {
+	panic("unused")
+}
+`
+	fr, err := visitors.VhLoadSource(src, nil)
+	if err != nil {
+		symxCover("C14.front.types.fixture-does-not-compile")
+		return // not a Go program (e.g. a constraint not satisfied): outside
+	}
+	meta, err := pipeline.VhNewPipeline(fr, vhFrontConfig()).Run()
+	if err != nil {
+		symxCover("C14.front.types.reported-error")
+		return
+	}
+	symxCover("C14.front.types.accepted")
+	doc30, doc31 := vhNewDoc30(), vhNewDoc31()
+	cfg := &definitions.OpenAPIGeneratorConfig{}
+	_ = swagen30.GenerateModelsSpec(doc30, &meta.Models)
+	_ = swagen31.GenerateModelsSpec(doc31, &meta.Models)
+	_ = swagen30.GenerateControllersSpec(doc30, cfg, meta.Flat)
+	_ = swagen31.GenerateControllersSpec(doc31, cfg, meta.Flat)
+}
